@@ -88,6 +88,26 @@ CLAIMED.update({
         design='DESIGN.md section 4, C05'),
 })
 
+CLAIMED.update({
+    'C08': dict(
+        category='other',
+        technique='finite abstract evaluation of the parser ladders (extracted from the AST) against gate families read from the class tables; name-map inverses',
+        text=("Decides the reader/writer agreements every round trip needs: the two conversion ladders of the parser are extracted as rungs with their handlers; every "
+              "gate family (STR/INT/DEC/forced/union/no-content, derived from _TYPES/_UNION/_FORCED_PERMITTED of all element TYPEs and attribute types) x every lexical "
+              "category the writer can emit reaches an accepting rung, earlier rungs fail with an exception class that rung's handler catches (the gates' raise classes "
+              "are read from the source), integer content ends on the int rung; tag<->class and attribute-key maps are inverse; text is only stripped."),
+        note="Does not decide float spelling fidelity (C05) nor re-acceptance of children in file order (matcher, C02).",
+        design='DESIGN.md section 4, C08'),
+    'C09': dict(
+        category='other',
+        technique='consumption / no-swallowing rules over the AST and CFG of the parser, key-space table comparison (Clark notation vs attribute tables)',
+        text=("Decides the no-silent-loss half: the parser reads tag, text, every attribute and every child (unconditional loops on every path; tail is a known finding), "
+              "every except handler retries the same target or re-raises, every partwise tag resolves to its class in the parser's namespace, text is only stripped, the "
+              "input is opened in binary mode, and the attribute key spaces (xml:/xlink: references, reserved names) agree with what ElementTree delivers."),
+        note="Does not decide that every schema-valid file is accepted (needs the matcher, C02) nor value fidelity. Known findings KF-09/10/11/16/17.",
+        design='DESIGN.md section 4, C09'),
+})
+
 NOT_APPLICABLE = {
     'C02': "Acceptance and order preservation for every word of 94 regular languages is the run-time behaviour of a heuristic matcher (first-fit leaf choice, choice commitment, duplication) on a mutable tree; no structural rule bounds the reachable tree states, and running the matcher (concretely or symbolically) is a different technique family. The one structural by-product (an unimplemented branch reachable from a valid word) is reported under C19.",
     'C07': "'Every accepted state has a completion' is an existential claim per reachable matcher state; the reachable states are defined by execution histories, not by the shape of the code. The rejection points that exist are covered as ordering/atomicity obligations of C01/C10, which is not a verdict on C07.",
